@@ -39,7 +39,7 @@ CHECK_DEADLOCK FALSE
 """ % (clients, ifaces, rounds, timeouts, binds, maxops, "TRUE" if macro else "FALSE")
 
 
-def svc_trace_cfg(dev="{}", drop=()):
+def svc_trace_cfg(dev="{}", drop=(), real=False):
     invs = " ".join(i for i in SVC_INVS.split() if i not in drop)
     return """SPECIFICATION TraceSpec
 CONSTANTS
@@ -49,11 +49,12 @@ CONSTANTS
   MaxTimeouts = 100
   MaxBinds = 100
   Dev = %s
+  RealL = %s
 INVARIANTS %s
 CONSTRAINT HighWater
 POSTCONDITION TraceAccepted
 CHECK_DEADLOCK FALSE
-""" % (dev, invs)
+""" % (dev, "TRUE" if real else "FALSE", invs)
 
 
 def gen_schedules(run, cfg, simulate=None, timeout=600):
@@ -122,10 +123,26 @@ def check_C14(run):
     else:
         sel = run.rng.sample(sel, min(len(sel), 6000))
     nt = lambda c: any('"ev":"ShutdownEnd"' in l for l in c) and any('"ev":"AcceptConn"' in l for l in c)
+    nt_l = lambda c: any('"ev":"ShutdownEnd"' in l for l in c) and any('"ev":"Connect"' in l for l in c)
     replay_validate(run, sel + seld, ["service"], "ServiceTrace", svc_trace_cfg(), "C14 gated schedules (Shutdown / draining / reuse)",
                     nontrivial=nt, classify=svc_classify("C14"), shards=16)
+    # the Listen path: Service.Listen has its own copy of the accept loop and runs on a real listener; accept and
+    # listener-close steps are unobservable there and inferred by TLC (RealL)
+    def listen_ok(x):
+        ops = json.loads(x)
+        for i, o in enumerate(ops):
+            if o["op"] in ("Timeout", "Release") or (o["op"] == "Serve" and (o.get("timeout") or o.get("gate"))):
+                return False
+            if o["op"] == "Install" and not (i + 1 < len(ops) and ops[i + 1]["op"] == "Serve"):
+                return False
+        return any(o["op"] == "Connect" for o in ops)
+    lsel = [x for x in s if listen_ok(x)]
+    run.extra["schedule_space"]["listen_path_len7"] = len(lsel)
+    lsel = run.rng.sample(lsel, min(len(lsel), 1100 if thorough else 320))
+    replay_validate(run, lsel, ["service", "-listen"], "ServiceTrace", svc_trace_cfg(real=True), "C14 schedules on the Listen path (real abstract unix listeners)",
+                    nontrivial=nt_l, classify=None, shards=16)
     run.write_evidence("model_checking",
-        "schedules = environment histories of spec/ServiceGen.tla (Install, Serve, Connect, Deliver, Shutdown, End(close|abort|handler error), second Bind, gate release) enumerated exhaustively up to 7 actions (quick: seeded sample) plus simulated histories of 12 actions; non-trivial = a connection was accepted and a Shutdown completed",
+        "schedules = environment histories of spec/ServiceGen.tla (Install, Serve, Connect, Deliver, Shutdown, End(close|abort|handler error), second Bind, gate release) enumerated exhaustively up to 7 actions (quick: seeded sample) plus simulated histories of 12 actions; the subset expressible with real listeners is also run through Service.Listen (its own copy of the accept loop); non-trivial = a connection was accepted and a Shutdown completed",
         exhaustive=False,
         assumptions=["placements of Shutdown finer than the harness's gates (Accept, SetDeadline, first Read) are explored in the model only",
                      "context cancellation as a connection ending is exercised by C17, not here",
